@@ -114,6 +114,6 @@ def distribution(recs):
 
 
 MANIFEST = {
- "text": "For every body program the reported outcome is 'failed' iff its executed part marks failure or panics (C07_classified, C07_any_failure_reported, C07_pass_reported, C07_stop_marks), independent of the handle's previous state and of what cleanups do (C07_independent), every iteration starts from a clean handle (C07_contained), and over a whole per-worker history iteration j is reported by body j alone (C07_history). Structural induction over action lists. Tie: generated per-worker behaviour sequences with real panics and runtime errors through the real handle.",
+ "text": "For every body program the reported outcome is 'failed' iff its executed part marks failure or panics (C07_classified, C07_any_failure_reported, C07_pass_reported, C07_stop_marks), independent of the handle's previous state and of what cleanups do (C07_independent), every iteration starts from a clean handle (C07_contained), and over a whole per-worker history iteration j is reported by body j alone (C07_history). Structural induction over action lists. Tie: generated per-worker behaviour sequences with real panics and runtime errors through the real handle. Regenerated: handlePanic marks the handle failed for every recovered value except nil and the FailNow sentinel itself, compared by identity (t_handlePanic_refines); a panicking body is recovered inside Run's inner block and everything after it happens as for a returning body (active_Run_window).",
  "note": "Alphabet of failure events as stated in the property (Goexit excluded). Process/worker survival is observed by the harness (the worker continues to take iterations; a crash of the process is reported as crash:process).",
- "technique": "Lean 4 theorems by structural induction over scenario programs + behaviour-sequence correspondence with the real handle"}
+ "technique": "Lean 4 theorems by structural induction over scenario programs + behaviour-sequence correspondence with the real handle; refinement of the regenerated panic handler (MiniGo)"}
